@@ -264,6 +264,17 @@ def r3b_lint_typestate(run, F):
                        "a statement directly in a function body is linted with both flags None (otherwise a bare `{ loop; }` after an "
                        "else-less `if c goto l;` raises L1800); states %s" % sorted(st))
     run.require(n >= 5, "linter: recursive lint call sites not found (%d)" % n)
+    # a block decides afresh whether its first statement is the first statement of a branch: with a symbolic entry state ('E' = the
+    # value the flag had when the block was entered) no statement of the block is linted with an inherited flag
+    sym = []
+    typestate.run(FM.cfgs[BL_], {("E", "E")}, FM.make_transfer(BL_), None, lambda u, t, st: sym.append((t, set(st))),
+                  stmt_transfer=FM.make_stmt_transfer(BL_))
+    sym = [(t, st) for t, st in sym if mirq.call_target(t) == ST_]
+    run.require(len(sym) >= 2, "Block::lint: the calls that lint the statements were not found")
+    for i, (t, st) in enumerate(sorted(sym, key=lambda x: x[0]["l"])):
+        run.ob("R3-LINT-TYPESTATE", "block statement (line order %d) sees no inherited flag" % i, bool(st) and all("E" not in x for x in st), F.where(FM.fns[BL_], t),
+               "whatever the flags were when the block was entered, both have been written before this statement is linted (a bare block "
+               "inside a branch block would otherwise inherit `first statement of a branch`: spurious L1800); states %s" % sorted(map(str, st)))
     # only the first statement of a block may see is_first_statement_of_branch = Some
     later = [(u, t, st) for u, t, st in records.get(BL_, []) if mirq.call_target(t) == ST_]
     if len(later) >= 2:
